@@ -144,7 +144,7 @@ MUTANTS = [
 @njit(
     uint64(
         uint8[:, :],""")]),
-    dict(name="c05-log16-n-added-only-when-advanced", props=["C05", "C08"], edits=[(CM, """    # Track total number of elements added to the sketch
+    dict(name="c05-log16-n-added-only-when-advanced", props=["C05"], edits=[(CM, """    # Track total number of elements added to the sketch
     n_added_records[0] += uint64(value)
 
     # This gets min_count AND updates buckets
@@ -186,7 +186,7 @@ MUTANTS = [
 
         if shared_memory:
             cms_size = int(1 * width * depth)""")]),
-    dict(name="c06-log8-add-truncates-counter-growth", props=["C06", "C05"], edits=[(CM, "    # Reminder that this is a uint16 value so cast to uint8\n    new_count = uint8(new_count)\n", "    # Reminder that this is a uint16 value so cast to uint8\n    new_count = uint8(min(new_count, min_count + uint16(64)))\n")]),
+    dict(name="c06-log8-add-truncates-counter-growth", props=["C06"], edits=[(CM, "    # Reminder that this is a uint16 value so cast to uint8\n    new_count = uint8(new_count)\n", "    # Reminder that this is a uint16 value so cast to uint8\n    new_count = uint8(min(new_count, min_count + uint16(64)))\n")]),
     # ---- C09
     dict(name="c09-log16-always-round-down", props=["C09"], edits=[(CM, """                delta = v - vlower
                 if delta / (vhigher - vlower) <= 0.5:
@@ -232,7 +232,7 @@ MUTANTS = [
         return CountMinLinear.load(filename, shared_memory)""")]),
     dict(name="c10-hh-load-skips-key-lens", props=["C10", "C13"], edits=[(HH, """            np.copyto(hh.key_lens, npzfile["key_lens"])\n""", "")]),
     dict(name="c10-hh-phi-saved-as-float32", props=["C10"], edits=[(HH, """            phi = np.float64(args[3])""", """            phi = np.float64(np.float32(args[3]))""")]),
-    dict(name="c10-hll-load-shm-skips-copy", props=["C10", "C16"], edits=[(HL, """            hll = HyperLogLog(*args, shared_memory=shared_memory)
+    dict(name="c10-hll-load-shm-skips-copy", props=["C10"], edits=[(HL, """            hll = HyperLogLog(*args, shared_memory=shared_memory)
             np.copyto(hll.registers, npzfile["hll"])""", """            hll = HyperLogLog(*args, shared_memory=shared_memory)
             if not shared_memory:
                 np.copyto(hll.registers, npzfile["hll"])""")]),
@@ -276,7 +276,7 @@ MUTANTS = [
         _merge_linear(""")]),
     dict(name="c15-hh-raises-valueerror", props=["C15"], edits=[(HH, """            raise TypeError("self and other have different width | depth | max_key_len")""", """            raise ValueError("self and other have different width | depth | max_key_len")""")]),
     # ---- C20
-    dict(name="c20-hll-load-falls-back-to-empty", props=["C20", "C10"], edits=[(HL, """        with np.load(filename) as npzfile:
+    dict(name="c20-hll-load-falls-back-to-empty", props=["C20"], edits=[(HL, """        with np.load(filename) as npzfile:
             args = npzfile["args"]
             hll = HyperLogLog(*args, shared_memory=shared_memory)
             np.copyto(hll.registers, npzfile["hll"])
